@@ -103,41 +103,7 @@ func c14histRun(m *rm.Tree, indexBy string, ed c14edit) (key, what string, faile
 			return
 		}
 		ctx := fmt.Sprintf("tree %s, %s, then %s -> %s", txt, indexBy, ed.name, after)
-		for metric := 0; metric < 3; metric++ {
-			o := c14oracle(m2, metric)
-			mat, tips := t.ToDistanceMatrix(c14gtMetric[metric])
-			key, what = c14cmpMatrix("matrix-after-edit", "path-sum/"+c14metricName[metric], mat, tips, o.d, o.absent, o.names, false,
-				fmt.Sprintf("ToDistanceMatrix(%s) of %s", c14metricName[metric], ctx))
-			if key != "" {
-				return
-			}
-		}
-		thrs, _ := c14thresholds(m2)
-		names := m2.TipNames()
-		for _, thr := range thrs {
-			exp := c14groups(m2, thr)
-			bags, err := t.CutEdgesMaxLength(thr)
-			if err != nil {
-				key, what = "C14/cut-after-edit/error", fmt.Sprintf("CutEdgesMaxLength(%v) of %s: %v", thr, ctx, err)
-				return
-			}
-			var got []string
-			cnt := 0
-			for _, b := range bags {
-				var g []string
-				for _, tp := range b.Tips() {
-					g = append(g, tp.Name())
-					cnt++
-				}
-				sort.Strings(g)
-				got = append(got, strings.Join(g, ","))
-			}
-			sort.Strings(got)
-			if cnt != len(names) || strings.Join(got, "|") != strings.Join(exp, "|") {
-				key, what = "C14/cut-after-edit/groups", fmt.Sprintf("CutEdgesMaxLength(%v) of %s: groups %q, reference model %q", thr, ctx, got, exp)
-				return
-			}
-		}
+		key, what = c14judgeTree(t, m2, "after-edit", ctx)
 	})
 	if crashed(r) {
 		return "C14/matrix-after-edit/crash/" + crashSite(r), fmt.Sprintf("tree %s, %s, then %s, then matrix/cut: %s", txt, indexBy, ed.name, verdictStr(r)), false
@@ -182,6 +148,101 @@ func c14histFamily(c *Ctx) {
 						c.Nontrivial("hist " + m.Newick() + ib + ed.name)
 					}
 				}
+			}
+		}
+	}
+}
+
+// c14judgeTree: matrix (3 metrics) and cuts (every threshold) of the gotree object t against the model m2 of the same tree.
+func c14judgeTree(t *tree.Tree, m2 *rm.Tree, op, ctx string) (key, what string) {
+	for metric := 0; metric < 3; metric++ {
+		o := c14oracle(m2, metric)
+		mat, tips := t.ToDistanceMatrix(c14gtMetric[metric])
+		key, what = c14cmpMatrix("matrix-"+op, "path-sum/"+c14metricName[metric], mat, tips, o.d, o.absent, o.names, false,
+			fmt.Sprintf("ToDistanceMatrix(%s) of %s", c14metricName[metric], ctx))
+		if key != "" {
+			return key, what
+		}
+	}
+	thrs, _ := c14thresholds(m2)
+	names := m2.TipNames()
+	for _, thr := range thrs {
+		exp := c14groups(m2, thr)
+		bags, err := t.CutEdgesMaxLength(thr)
+		if err != nil {
+			key, what = "C14/cut-"+op+"/error", fmt.Sprintf("CutEdgesMaxLength(%v) of %s: %v", thr, ctx, err)
+			return key, what
+		}
+		var got []string
+		cnt := 0
+		for _, b := range bags {
+			var g []string
+			for _, tp := range b.Tips() {
+				g = append(g, tp.Name())
+				cnt++
+			}
+			sort.Strings(g)
+			got = append(got, strings.Join(g, ","))
+		}
+		sort.Strings(got)
+		if cnt != len(names) || strings.Join(got, "|") != strings.Join(exp, "|") {
+			key, what = "C14/cut-"+op+"/groups", fmt.Sprintf("CutEdgesMaxLength(%v) of %s: groups %q, reference model %q", thr, ctx, got, exp)
+			return key, what
+		}
+	}
+	return "", ""
+}
+
+// ---- family F10: a root with a single neighbour (the root itself is a named tip) ----------------------------
+
+// c14stemModel: the model of "(X:l)R;" seen as the unrooted tree it is: X becomes the root, R one of its children.
+func c14stemModel(sub *rm.Tree, l float64, hasLen bool) (*rm.Tree, string) {
+	x := sub.Root.Clone()
+	text := "(" + strings.TrimSuffix((&rm.Tree{Root: x}).Newick(), ";")
+	if hasLen {
+		text += ":" + rm.FormatFloat(l)
+	}
+	text += ")R;"
+	m := &rm.Tree{Root: x.Clone()}
+	m.Root.Children = append(m.Root.Children, &rm.Node{Name: "R", HasLen: hasLen, Len: l})
+	return m, text
+}
+
+func c14stemFamily(c *Ctx) {
+	maxN := 4
+	if !c.Quick() {
+		maxN = 5
+	}
+	for n := 2; n <= maxN; n++ {
+		for _, sh := range enum.Shapes(n, "t") {
+			if c.TimeUp() {
+				return
+			}
+			for v, l := range []float64{2, 0.25, 0, -1} {
+				if !c.Mine() {
+					continue
+				}
+				sub := sh.Clone()
+				c14label(sub, c14scramble(n))
+				c14default(sub)
+				for _, tp := range sub.Tips() {
+					tp.HasSup = false
+				}
+				m2, text := c14stemModel(sub, l, v != 3)
+				c.Check(c14histCase{Op: "stem", Tree: text}, func() (string, string) {
+					var key, what string
+					r := guard(func() {
+						t := gtMustParse(text)
+						key, what = c14judgeTree(t, m2, "single-neighbour-root", "tree "+text)
+					})
+					if crashed(r) {
+						return "C14/matrix-single-neighbour-root/crash/" + crashSite(r), "tree " + text + ": " + verdictStr(r)
+					}
+					return key, what
+				})
+				c.States++
+				c.Count("single_neighbour_root_cases", 1)
+				c.Nontrivial("stem " + text)
 			}
 		}
 	}
